@@ -580,8 +580,9 @@ var c28Known = []c28Sig{
 	{"C28-getopts-stale-runeidx", regexp.MustCompile(`index out of range`), []string{"interp.(*getopts).next"}, nil},
 	{"C28-arith-lvalue-index", regexp.MustCompile(`variable name must not be empty`), []string{"interp.(*Runner).lookupVar", "expand.Arithm"}, nil},
 	{"C28-empty-nameref-target", regexp.MustCompile(`variable name must not be empty`), []string{"interp.(*Runner).lookupVar", "expand.Variable.Resolve"}, nil},
-	{"C28-empty-variable-name", regexp.MustCompile(`variable name must not be empty`), []string{"interp.(*Runner).lookupVar"},
-		[]string{"interp.(*Runner).builtin", "interp.(*Runner).unTest"}},
+	// every other route of an empty name into lookupVar (unset '', [[ -v "" ]], `+=[ 1 ]`, …): one panic
+	// site, one root fix (lookupVar returns the unset variable); see known-findings.jsonl
+	{"C28-empty-variable-name", regexp.MustCompile(`variable name must not be empty`), []string{"interp.(*Runner).lookupVar"}, nil},
 	{"C28-assoc-index-not-word", regexp.MustCompile(`interface conversion: syntax\.ArithmExpr is (nil|\*syntax\.\w+), not \*syntax\.Word`), nil,
 		[]string{"expand.(*Config).varInd", "expand.(*Config).assignElem", "interp.(*Runner).assignVal"}},
 	{"C28-preinc-postinc", regexp.MustCompile(`interface conversion: syntax\.ArithmExpr is \*syntax\.UnaryArithm, not \*syntax\.Word`), []string{"expand.Arithm"}, nil},
